@@ -220,11 +220,14 @@ func (b *Batch) Commit() error {
 	logRecord.Key = append(logRecord.Key, b.batchID.Bytes()...)
 	logRecord.Type = datafile.LogRecordBatchFinished
 	logRecord.BatchID = uint64(b.batchID)
-	_, err = b.db.activeFile.WriteLogRecord(logRecord, b.db.logRecordHeader)
+	finPos, err := b.db.activeFile.WriteLogRecord(logRecord, b.db.logRecordHeader)
 	b.db.putRecordToPool(logRecord)
 	if err != nil {
 		return err
 	}
+	// 完成标识记录占用空间, 但不属于有效数据
+	b.db.totalSize += int64(finPos.Size)
+	b.db.reclaimSize += int64(finPos.Size)
 
 	b.staged = nil
 	b.stageIndex = nil
@@ -297,6 +300,7 @@ func (b *Batch) flushStaged() error {
 	// 追加操作全部完成后, 更新索引
 	for i, record := range b.staged {
 		var pos *datafile.DataPos
+		b.db.totalSize += int64(dataPos[i].Size)
 		if record.Type == datafile.LogRecordDeleted {
 			pos = b.db.index.Delete(record.Key)
 			b.db.reclaimSize += int64(dataPos[i].Size)
